@@ -28,6 +28,7 @@ func (fx *FuncCtx) call(st *State, x *ssa.Call) (forks []*State, ended bool) {
 	switch callee := cc.Value.(type) {
 	case *ssa.Builtin:
 		f.vals[x] = fx.builtin(st, x, callee)
+		fx.afterCall(st, x)
 		return nil, false
 	case *ssa.Function:
 		return fx.callStatic(st, x, callee)
@@ -408,9 +409,7 @@ func (fx *FuncCtx) extern(st *State, x *ssa.Call, callee *ssa.Function, args []V
 	case "math.Float64frombits":
 		return FPFromBits(args[0].(Term)), true
 	case "math.Float64bits":
-		b := fx.FreshSym("f64bits", SBV64)
-		st.assume(StructEq(FPFromBits(b), args[0].(Term)))
-		return b, true
+		return fx.float64bits(args[0].(Term)), true
 	case "math.IsNaN":
 		return Term{S: "(fp.isNaN " + args[0].(Term).S + ")", So: SBool}, true
 	case "math.IsInf":
@@ -619,4 +618,22 @@ func (fx *FuncCtx) strconvSyms(st *State, kind string, base PtrVal, off, ln Term
 	}
 	fx.uninterp[key] = []Term{okT, valT, rngT}
 	return okT, valT, rngT
+}
+
+// float64bits: the IEEE bit pattern of a float term, as a symbol that is a function of the term (same float
+// term, same bits symbol) constrained by to_fp(bits) = f.
+func (fx *FuncCtx) float64bits(f Term) Term {
+	if fx.f64bits == nil {
+		fx.f64bits = map[string]Term{}
+	}
+	if b, ok := fx.f64bits[f.S]; ok {
+		return b
+	}
+	save := fx.curSite
+	fx.curSite = ""
+	b := fx.FreshSym("f64bits", SBV64)
+	fx.curSite = save
+	fx.axiom(StructEq(FPFromBits(b), f))
+	fx.f64bits[f.S] = b
+	return b
 }
